@@ -1,3 +1,139 @@
-import ApiFu.C02.Model
+/-
+  C02 — the response is independent of sync/async resolution and promise order.
+  Property theorems over the model (ApiFu/C02/Model.lean), for *all* future terms, requests,
+  async subsets (`Mode` per field invocation) and schedules (`sched`, any list of masks).
+
+  Reading guide
+  * `Fut.out f`          — the denotation ⟦f⟧ of a future term: the value it will resolve to, or `fail`
+                           (some error propagates; by the GraphQL rules *which* one may depend on
+                           the schedule when several fields fail beneath one non-null position,
+                           so the identity of a propagating error is deliberately not part of ⟦·⟧).
+  * `Spec.comp/request`  — the reference semantics (ApiFu/C02/Spec.lean); mentions neither modes
+                           nor schedules.
+  * `execute rq`         — the executor model run on request `rq` (query: `execFields` + `wait`;
+                           mutation: `execSerial`); `run rq` its observable.
+
+  Proof scripts live in ApiFu/C02/Lemmas.lean.
+-/
+import ApiFu.C02.Lemmas
+
 namespace ApiFu.C02
+
+/-! ## Combinator level (future.go) -/
+
+/-- **poll_idempotent_after_ready.** Polling a ready future changes nothing — not the future, not
+    the store (so no callback runs again) — and reports the stored result. -/
+theorem poll_idempotent_after_ready (r : Res) (S : Store) :
+    poll (.ready r) S = (.ready r, S, some r) := poll_ready r S
+
+/-- A result reported by `poll` is stored in the future: from then on the holder sees `ready r`. -/
+theorem poll_stores_result (f f' : Fut) (S S' : Store) (r : Res) (h : poll f S = (f', S', some r)) :
+    f' = .ready r := poll_some_ready f S f' S' r h
+
+/-- Consequently a future that has reported a result is never run again: every later poll, in any
+    later store, returns the same result and leaves that store untouched (F-02b: with `After`
+    polling its children in place this holds for every child of `After` and `Join`). -/
+theorem poll_stable_after_result (f f' : Fut) (S S' S'' : Store) (r : Res) (h : poll f S = (f', S', some r)) :
+    poll f' S'' = (f', S'', some r) := by
+  rw [poll_some_ready f S f' S' r h]; exact poll_ready r S''
+
+/-- A future that did not report a result is not ready (readiness and reporting coincide). -/
+theorem poll_pending_not_ready (f f' : Fut) (S S' : Store) (h : poll f S = (f', S', none)) :
+    f'.isReady = false := poll_none_not_ready f S f' S' h
+
+/-- **poll preserves the denotation** (subject reduction), whatever the store holds. -/
+theorem poll_preserves_denotation (f : Fut) (S : Store) : (poll f S).1.out = f.out := poll_out f S
+
+/-- **A reported result is the denotation**: ok with exactly the denoted value, or an error iff
+    the denotation is `fail`. In particular the value a future resolves to does not depend on when
+    and in which order its promises were fulfilled. -/
+theorem poll_result_is_denotation (f : Fut) (S : Store) (r : Res) (h : (poll f S).2.2 = some r) :
+    r.out = f.out := poll_result_out f S r h
+
+/-- The constructors' ready fast paths have the same denotation as the combinator they shortcut. -/
+theorem constructors_agree (fn : MapFn) (g : OkFn) (v : Val) (f : Fut) (fs : List Fut) (S : Store) :
+    (mkMap fn f S).1.out = (Fut.map fn f).out ∧ (mkMapOk g f S).1.out = (Fut.mapOk g f).out ∧
+    (mkMapOkToAny f).out = (Fut.mapOkToAny f).out ∧ (mkMapOkValue v f).out = (Fut.mapOkValue v f).out ∧
+    (mkJoin fs).out = (Fut.join fs).out ∧ (mkAfter fs).out = (Fut.after fs).out :=
+  ⟨mkMap_out fn f S, mkMapOk_out g f S, by rw [mkMapOkToAny_out]; simp [Fut.out],
+   by rw [mkMapOkValue_out]; simp [Fut.out], mkJoin_out fs, mkAfter_out fs⟩
+
+/-- **Combinator laws** for ⟦·⟧: `Map` applies its function to the result; `MapOk`, `MapOkToAny`,
+    `MapOkValue` transform values and *forward failures* (F-02a); `Join`/`After` fail iff a child
+    fails and otherwise collect the values / yield unit. -/
+theorem combinator_laws (fn : MapFn) (g : OkFn) (v : Val) (f : Fut) (fs : List Fut) :
+    (Fut.map fn f).out = outMap fn f.out ∧
+    (Fut.mapOk g f).out = (match f.out with | .ok _ => .ok .null | .fail => .fail) ∧
+    (Fut.mapOkToAny f).out = f.out ∧
+    (Fut.mapOkValue v f).out = (match f.out with | .ok _ => .ok v | .fail => .fail) ∧
+    (Fut.join fs).out = (match Fut.outs fs with | some vs => .ok (.list vs) | none => .fail) ∧
+    (Fut.after fs).out = (match Fut.outs fs with | some _ => .ok .unit | none => .fail) := by
+  refine ⟨rfl, ?_, rfl, ?_, rfl, rfl⟩ <;> simp only [Fut.out, outOk] <;> cases f.out <;> rfl
+
+/-- **F-02a, operationally**: if the child of `MapOk` / `MapOkToAny` / `MapOkValue` will fail, then
+    whenever the combinator reports a result — in the ready fast path or after any number of polls —
+    that result is an error, never an ok zero value. -/
+theorem mapOk_family_forwards_error (g : OkFn) (v : Val) (f : Fut) (S : Store) (r : Res) (hf : f.out = .fail) :
+    ((poll (.mapOk g f) S).2.2 = some r → r.isOk = false) ∧
+    ((poll (.mapOkToAny f) S).2.2 = some r → r.isOk = false) ∧
+    ((poll (.mapOkValue v f) S).2.2 = some r → r.isOk = false) := by
+  refine ⟨fun h => ?_, fun h => ?_, fun h => ?_⟩
+  all_goals
+    have := poll_result_out _ S r h
+    simp only [Fut.out, outOk, hf] at this
+    cases r <;> simp_all [Res.out, Res.isOk]
+
+/-! ## Executor level (executor.go) -/
+
+/-- The future `completeValue` builds denotes what the reference semantics prescribes for the
+    value, independently of the store it is built in and of the modes inside the plan. -/
+theorem complete_denotes_spec (nn : Bool) (c : Comp) (path : Path) (S : Store) :
+    (complete nn c path S).1.out = Spec.comp nn c path := complete_out nn c path S
+
+/-- **async_eq_spec (outcome).** For every request, every async subset and every schedule: if
+    execution returns, the root result is the one the reference semantics prescribes — the root
+    object `Val.obj [] n`, or an error exactly when a failure reaches the root (data null). -/
+theorem async_outcome_eq_spec (rq : Request) (r : Res) (h : (execute rq).1 = .done r) :
+    r.out = Spec.request rq := (execute_spec rq r h).1
+
+/-- **async_eq_sync (outcome).** The same request under an arbitrary async subset and schedule and
+    under all-synchronous resolution yields the same root outcome (same object / both null). -/
+theorem async_eq_sync_outcome (rq : Request) (sched' : List Nat) (r r' : Res)
+    (h : (execute rq).1 = .done r) (h' : (execute (rq.allSync sched')).1 = .done r') :
+    r.out = r'.out := by
+  rw [async_outcome_eq_spec rq r h, async_outcome_eq_spec _ r' h', spec_request_allSync]
+
+/-- **rounds_le_promises.** Whenever execution returns, the number of idle rounds is at most the
+    number of promises created: every round the model lets happen fulfils at least one outstanding
+    promise (`idleRound_spec`), for every schedule. -/
+theorem rounds_le_promises (rq : Request) (r : Res) (h : (execute rq).1 = .done r) :
+    (execute rq).2.rounds ≤ (execute rq).2.nextId := (execute_spec rq r h).2.1
+
+/-- The two guarded branches of `poll` (continuation heavier than its `Then` node) are never
+    taken: the model's explicit crash flag stays down. -/
+theorem no_crash_branch (rq : Request) (r : Res) (h : (execute rq).1 = .done r) :
+    (execute rq).2.crash = false := (execute_spec rq r h).2.2
+
+/-! Non-vacuity: a request for which execution returns under a two-round schedule, with a promise
+    failing beneath a non-null field inside a nullable object (the F-02a shape). -/
+
+def exampleRequest : Request :=
+  { mutation := false,
+    fields := [.mk "obj" false .sync none (.object [.mk "nn" true .promise (some "boom") .null]),
+               .mk "b" false .promise none (.scalar "1")],
+    sched := [2, 1] }
+
+example : Spec.request exampleRequest = .ok (.obj [] 2) := by
+  simp [Spec.request, exampleRequest, Spec.fieldsOk, Spec.comp, Out.caught, Out.isOk, Out.nonNull]
+
+/-- … and execution of such a request does return (the hypothesis `(execute rq).1 = .done r` of
+    the theorems above is satisfiable): one promised field, fulfilled in the first idle round. -/
+def tinyRequest : Request :=
+  { mutation := false, fields := [.mk "a" false .promise none (.scalar "1")], sched := [1] }
+
+example : (execute tinyRequest).1 = .done (.ok (.obj [] 1)) := by
+  simp [execute, tinyRequest, execFields, execField, catchIfNullable, mkMap, mkAfter, scanReady, mkMapOkValue,
+    Field.invocationsL, Comp.invocations, waitLoop, poll, pollAll, Store.push, idleRound, deliver, picks, maskPicks,
+    testBit, applyK, complete, nonNullWrap, applyMap, applyOk, Fut.weight, Fut.weightO, Comp.weight]
+
 end ApiFu.C02
